@@ -627,6 +627,21 @@ pub fn check(tier_name: &str, base_seed: u64) -> Outcome {
             }
         }
     }
+    // violations found by the Miri stage (run by ./check before this binary in the thorough tier)
+    let miri = crate::miri_stage::last_summary();
+    if let Some(vs) = miri["violations"].as_array() {
+        for v in vs {
+            if let Some(pth) = v["replay"].as_str() {
+                println!(
+                    "miri violation: scenario {} seed {} kind {}",
+                    v["scenario"], v["seed"], v["kind"]
+                );
+                println!("VIOLATION property=C18 replay={}", pth);
+                replay_paths.push(pth.to_string());
+                violations_reported += 1;
+            }
+        }
+    }
     if !(probe.0 && probe.1) {
         let path = minimise::write_probe_replay(probe);
         println!("VIOLATION property=C18 replay={}", path);
@@ -761,7 +776,7 @@ pub fn check(tier_name: &str, base_seed: u64) -> Outcome {
             "known_findings_printed": known_printed,
             "replay_files": replay_paths,
             "harness_errors": harness_errors,
-            "miri": crate::miri_stage::last_summary(),
+            "miri": miri,
             "components": {
                 "real": ["regexml parser/optimiser/matcher/iterators (built from /repo working tree, feature verif-hooks)", "BLOCK_LOOKUP with std::sync::OnceLock", "icu_casemap / icu_properties / icu_collections with baked data", "ahash hashing code", "std::thread caller threads, thread-local storage", "glibc malloc", "process start (cold state)"],
                 "owned_by_simulator": ["which caller thread runs (token scheduler at hook sites and operation boundaries)", "ahash per-map key material (set_random_source) and per-process keys (--cfg fuzzing)", "caller crashes (unwind at a chosen hook step)", "logical clock (hook hits + scheduler events)"],
